@@ -28,6 +28,12 @@ pub struct Cfg {
     pub checkpoint_interval: Option<usize>,
     #[serde(default)]
     pub expect_explicit_explore: bool,
+    /// environment variables to set (empty value: remove) before the run, and whether the run goes through `loom::model`
+    /// (the configuration then comes from the environment) instead of an explicit Builder
+    #[serde(default)]
+    pub env: Option<std::collections::BTreeMap<String, String>>,
+    #[serde(default)]
+    pub via_model: bool,
     /// harness-side cap on iterations (the run is cut between two iterations)
     #[serde(default)]
     pub iter_cap: Option<usize>,
@@ -100,7 +106,7 @@ pub fn classify(msg: &str) -> &'static str {
         "leak:msg"
     } else if m.contains("maximum number of branches") {
         "branches"
-    } else if m.starts_with("currently writing to cell") || m.starts_with("currently reading from cell") {
+    } else if m.starts_with("currently writing to cell") || m.starts_with("currently reading from cell") || m.contains("lazy_static during shutdown") {
         "usage"
     } else {
         "other"
@@ -273,6 +279,15 @@ pub fn run_program(prog: &Prog, cfg: &Cfg) -> RunResult {
         }
     })));
 
+    if let Some(env) = &cfg.env {
+        for (k, v) in env {
+            if v.is_empty() {
+                std::env::remove_var(k);
+            } else {
+                std::env::set_var(k, v);
+            }
+        }
+    }
     let mut b = loom::model::Builder::new();
     b.preemption_bound = cfg.preemption_bound;
     if let Some(v) = cfg.max_branches {
@@ -296,14 +311,20 @@ pub fn run_program(prog: &Prog, cfg: &Cfg) -> RunResult {
     let p2 = prog.clone();
     let panic_at = cfg.panic_at_iter;
     let counter = SArc::new(std::sync::atomic::AtomicUsize::new(0));
+    let via_model = cfg.via_model;
     let r = catch_unwind(AssertUnwindSafe(|| {
-        b.check(move || {
+        let body = move || {
             let n = counter.fetch_add(1, StdOrd::SeqCst) + 1;
             interp::run_main(p2.clone());
             if panic_at == Some(n) {
                 panic!("verif-panic at iteration {}", n);
             }
-        });
+        };
+        if via_model {
+            loom::model(body);
+        } else {
+            b.check(body);
+        }
     }));
     loom::verif::set_iteration_hook(None);
     loom::verif::set_schedule_hook(None);
